@@ -55,7 +55,8 @@ def tree_cases(ctx, pub, tree, tag, every_leaf=True):
     lv = TT.leaves(tree)
     nt = len(lv) >= 2
     yield Case(f'tr_root {tl}', 'gms' if len(tl) < 20000 else 'ms', nontrivial=nt, tag=tag)
-    yield Case(f'tr_addr {hx(pub64)} S {tl}', 'ms', nontrivial=nt, tag=tag)
+    # the translated to_taproot_hex is interpreted (a scalar multiplication per call): run it on a third of the tree cases
+    yield Case(f'tr_addr {hx(pub64)} S {tl}', 'gms' if sum(pub64[:4]) % 3 == 0 else 'ms', nontrivial=nt, tag=tag)
     # the address's program/parity, from the implementation, is what every control block must verify against
     prog, odd = pub.to_taproot_hex(TT.to_py(tree))
     idxs = range(len(lv)) if every_leaf else sorted(rng.sample(range(len(lv)), min(3, len(lv))))
@@ -102,9 +103,9 @@ def cases(ctx):
     # key-path-only and raw-root addresses
     for _ in range(ctx.n(20, 500)):
         pub = priv_with_parity(rng, rng.random() < 0.5).get_public_key()
-        yield Case(f'tr_addr {hx(pub.to_bytes())} N', 'ms', nontrivial=not pub.is_y_even(), tag='keyonly')
+        yield Case(f'tr_addr {hx(pub.to_bytes())} N', 'gms', nontrivial=not pub.is_y_even(), tag='keyonly')
         root = G.rbytes(rng, 32)
-        yield Case(f'tr_addr {hx(pub.to_bytes())} R {hx(root)}', 'ms', nontrivial=True, tag='rawroot')
+        yield Case(f'tr_addr {hx(pub.to_bytes())} R {hx(root)}', 'gms', nontrivial=True, tag='rawroot')
     # the two hash leaves against the *generated* code (tier T): TapBranch on ordered / reversed / equal / prefix-related children,
     # TapLeaf on scripts incl. the 252/253-byte CompactSize boundary
     from harness.common import toks_str
